@@ -305,6 +305,8 @@ func Edge(s *S, o *Outer) {
 	(s.Reset)() // E-PAREN-MCALL
 	o.Reset() // E-PROMOTED
 	o.S.Reset() // E-EXPLICIT
+	(*S).Reset(s) // E-MEXPR
+	(*Outer).Reset(o) // E-MEXPR-PROMOTED
 }
 `
 
@@ -316,6 +318,34 @@ var list = []*Helper{{X: 1}} // E2-ELIDED-PTR
 const c03SrcE2b = `package d
 
 var tab = map[string]Helper{"k": {X: 2}} // E2B-ELIDED-MAP
+`
+
+// the @testonly type as an element / variadic type: each form is the only use in its file
+const c03SrcE4 = `package d
+
+func Variadic(hs ...Helper) {} // E4-VARIADIC
+`
+
+const c03SrcE5 = `package d
+
+var list5 []Helper // E5-SLICE-VAR
+`
+
+const c03SrcE6 = `package d
+
+type Registry struct {
+	m map[string]*Helper // E6-MAP-FIELD
+}
+`
+
+const c03SrcE7 = `package d
+
+var list7 = []Helper{} // E7-SLICE-LIT
+`
+
+const c03SrcE8 = `package d
+
+func Results() (out [2]Helper, ch chan Helper) { return } // E8-ARRAY-RESULT
 `
 
 const c03SrcE3 = `package d
@@ -349,7 +379,8 @@ func ZZC03Edge() {
 	annM := nd.EnumPad("annM", " @testonly", " plain")
 	holes := []nd.Hole{{"annH", annH}, {"annF", annF}, {"annW", annW}, {"annM", annM}}
 	files := []nd.File{{Pkg: "zzmod/d", Name: "d.go", Src: c03SrcED}, {Pkg: "zzmod/d", Name: "e1.go", Src: c03SrcE1}, {Pkg: "zzmod/d", Name: "e2.go", Src: c03SrcE2},
-		{Pkg: "zzmod/d", Name: "e2b.go", Src: c03SrcE2b}, {Pkg: "zzmod/d", Name: "e3.go", Src: c03SrcE3}, {Pkg: "zzmod/u", Name: "u.go", Src: c03SrcEU}}
+		{Pkg: "zzmod/d", Name: "e2b.go", Src: c03SrcE2b}, {Pkg: "zzmod/d", Name: "e3.go", Src: c03SrcE3}, {Pkg: "zzmod/u", Name: "u.go", Src: c03SrcEU},
+		{Pkg: "zzmod/d", Name: "e4.go", Src: c03SrcE4}, {Pkg: "zzmod/d", Name: "e5.go", Src: c03SrcE5}, {Pkg: "zzmod/d", Name: "e6.go", Src: c03SrcE6}, {Pkg: "zzmod/d", Name: "e7.go", Src: c03SrcE7}, {Pkg: "zzmod/d", Name: "e8.go", Src: c03SrcE8}}
 	prog := nd.LoadProgram(files, holes)
 	cfg := config.Default()
 	rd := Analyze(prog, cfg, "zzmod/d", Facts{}, "tonl")
@@ -371,6 +402,14 @@ func ZZC03Edge() {
 		{f1, nd.LineOf(c03SrcE1, "E-PAREN-MCALL"), "TONL03", tM},
 		{f1, nd.LineOf(c03SrcE1, "E-PROMOTED"), "TONL03", tM},
 		{f1, nd.LineOf(c03SrcE1, "E-EXPLICIT"), "TONL03", tM},
+		{f1, nd.LineOf(c03SrcE1, "E-MEXPR"), "TONL03", tM},
+		{f1, nd.LineOf(c03SrcE1, "E-MEXPR-PROMOTED"), "TONL03", tM},
+		// the type used as variadic / element type of a parameter, variable, field, literal, result
+		{"/zz/zzmod/d/e4.go", nd.LineOf(c03SrcE4, "E4-VARIADIC"), "TONL01", tH},
+		{"/zz/zzmod/d/e5.go", nd.LineOf(c03SrcE5, "E5-SLICE-VAR"), "TONL01", tH},
+		{"/zz/zzmod/d/e6.go", nd.LineOf(c03SrcE6, "E6-MAP-FIELD"), "TONL01", tH},
+		{"/zz/zzmod/d/e7.go", nd.LineOf(c03SrcE7, "E7-SLICE-LIT"), "TONL01", tH},
+		{"/zz/zzmod/d/e8.go", nd.LineOf(c03SrcE8, "E8-ARRAY-RESULT"), "TONL01", tH},
 		{f2, nd.LineOf(c03SrcE2, "E2-ELIDED-PTR"), "TONL01", tH},
 		{f2b, nd.LineOf(c03SrcE2b, "E2B-ELIDED-MAP"), "TONL01", tH},
 		// e3.go: the only Helper there is a function-local type: nothing
